@@ -2,7 +2,9 @@
 package c16
 
 import (
+	"bufio"
 	"bytes"
+	"reflect"
 	"encoding/binary"
 	"encoding/hex"
 	"fmt"
@@ -14,6 +16,7 @@ import (
 
 	"verif/internal/build"
 	"verif/internal/ev"
+	"verif/internal/src"
 )
 
 func TestMain(m *testing.M) { ev.Main(m, "C16", "exploration") }
@@ -49,10 +52,19 @@ func check(c Case) (kind, what string, nt bool) {
 	var h [128]byte
 	copy(h[:], raw)
 	data := profileWith(h)
-	var p *icc.Profile
-	var rerr error
-	if pn, msg := ev.Guard(func() { p, rerr = icc.NewProfileReader(bytes.NewReader(data)).ReadProfile() }); pn {
+	var p, p2 *icc.Profile
+	var rerr, rerr2 error
+	if pn, msg := ev.Guard(func() {
+		p, rerr = icc.NewProfileReader(bytes.NewReader(data)).ReadProfile()
+		// the same bytes behind a 16-byte bufio.Reader over a source that delivers 1..7 bytes per call: the
+		// decoded header must not depend on how the reader hands the bytes over
+		s := &src.Source{Data: data, FaultAt: -1, Sizes: []int{int(h[99])%7 + 1}}
+		p2, rerr2 = icc.NewProfileReader(bufio.NewReaderSize(s, 16)).ReadProfile()
+	}); pn {
 		return "panic", msg, true
+	}
+	if (rerr == nil) != (rerr2 == nil) || (rerr == nil && !reflect.DeepEqual(p.Header, p2.Header)) {
+		return "reader-dependent", fmt.Sprintf("header decoded from a short-reading buffered reader differs from the one decoded from bytes.Reader: %v / %v (header %s)", rerr2, rerr, c.Header), true
 	}
 	be32 := func(o int) uint32 { return binary.BigEndian.Uint32(h[o:]) }
 	be16 := func(o int) uint16 { return binary.BigEndian.Uint16(h[o:]) }
